@@ -412,7 +412,7 @@ static inline void myth_queue_put(myth_thread_queue_t q, myth_thread_t th)
     } else {
       int offset = (q->size - q->top + 1) / 2;
       myth_assert(offset > 0);
-      MYTH_VERIF_POINT(mythv_p_q_put, q->top);
+      MYTH_VERIF_POINT(mythv_p_q_put_recentre, q->top);
       memmove(&q->ptr[q->base + offset], &q->ptr[q->base],
 	      sizeof(myth_thread_t) * (q->top - q->base));
       q->top += offset;
